@@ -275,6 +275,30 @@ def make_history(seed, i, max_ops=4):
         else:
             s = rng.choice(generated)
             ops.append(render_op(s, crash=rng.random() < 0.2))
+    if rng.random() < 0.2:
+        # probe: a tiny generation (one model, a few plain required fields of the kinds used before) rendered with a
+        # framework used earlier in the history - anything an earlier call left behind (imports, styles, names) shows
+        renders = [o for o in ops if o["op"] == "RENDER"]
+        kinds = [k for k in ("int", "str_int", "str_float", "str_plain", "str_bool", "bool", "float")]
+        sp = max(slot_w) + 10
+        probe_w = gen_workload(seeds.derive(seed, PROP, i, "probe"), scalar_kinds=rng.sample(kinds, k=rng.randint(1, 3)),
+                               n_shapes=1, width=rng.randint(1, 3), depth=0, n_models=1, samples=rng.randint(1, 3),
+                               p_null=0.0, p_missing=0.0, p_hetero=0.0, p_container=0.0, p_self=0.0, bulk=0, chain=False,
+                               p_numeric_twin=0.0, p_collide=0.0, key_styles=["snake"])
+        slot_w[sp] = probe_w
+        r = render_op(sp)
+        r.pop("kw_id", None)
+        r["options"] = dict(r["options"])
+        r.pop("types_style", None)
+        r["options"].pop("types_style", None)
+        if renders:
+            r["framework"] = rng.choice(renders)["framework"]
+        r["structure"] = "flat"
+        # same explicit string-type registry as an earlier generation: the probe differs from it only in its samples
+        g = gen_op(sp)
+        first_gen = next(o for o in ops if o["op"] == "GEN")
+        g["options"] = dict(g["options"], str_types=first_gen["options"]["str_types"], dict_keys_regex=[], dict_keys_fields=[])
+        ops += [g, r]
     return ops
 
 
